@@ -26,6 +26,7 @@ import (
 func init() {
 	translators["utswrites"] = utsWrites
 	translators["tdorder"] = tdOrder
+	translators["acqroster"] = acqRoster
 }
 
 func ownSel(e ast.Expr) (x string, sel string, ok bool) {
@@ -315,5 +316,65 @@ func tdOrder() string {
 	fmt.Fprintf(&b, "Definition td_steps : list N := [%s].\n", strings.Join(items, "; "))
 	b.WriteString("(* the after_DESTROY hooks of a weight are appended to the DESTROY hooks of that weight (true) or replace them (false) *)\n")
 	fmt.Fprintf(&b, "Definition td_after_extends : bool := %v.\n", extends == 1)
+	return b.String()
+}
+
+// acqroster: core/task/manager.go acquireTasks - the loop that writes the newly launched tasks to the
+// roster (`m.roster.append(...)`) must not depend on the success of
+// the deployment: a task that was launched is known to the task manager until it is gone.
+func acqRoster() string {
+	_, f := parseFile("core/task/manager.go")
+	fd := findFunc(f, "Manager", "acquireTasks")
+	if fd == nil || fd.Body == nil {
+		die("acqroster: func (m *Manager) acquireTasks not found")
+	}
+	found, unconditional := 0, 0
+	var walk func(n ast.Node, underSuccess bool)
+	walk = func(n ast.Node, underSuccess bool) {
+		ast.Inspect(n, func(m ast.Node) bool {
+			switch v := m.(type) {
+			case *ast.IfStmt:
+				cond := false
+				ast.Inspect(v.Cond, func(c ast.Node) bool {
+					if id, ok := c.(*ast.Ident); ok && id.Name == "deploymentSuccess" {
+						cond = true
+					}
+					return true
+				})
+				if cond {
+					if u, ok := v.Cond.(*ast.UnaryExpr); ok && u.Op == token.NOT {
+						// `if !deploymentSuccess {...}`: the else branch (if any) is the success branch
+						walk(v.Body, underSuccess)
+						if v.Else != nil {
+							walk(v.Else, true)
+						}
+					} else {
+						walk(v.Body, true)
+						if v.Else != nil {
+							walk(v.Else, underSuccess)
+						}
+					}
+					return false
+				}
+			case *ast.CallExpr:
+				if sel, ok := v.Fun.(*ast.SelectorExpr); ok && sel.Sel.Name == "append" {
+					if r, ok := sel.X.(*ast.SelectorExpr); ok && r.Sel.Name == "roster" {
+						found++
+						if !underSuccess {
+							unconditional++
+						}
+					}
+				}
+			}
+			return true
+		})
+	}
+	walk(fd.Body, false)
+	if found == 0 {
+		die("acqroster: no `m.roster.append(...)` found in acquireTasks")
+	}
+	var b strings.Builder
+	b.WriteString("(* regenerated on every run by harness/cmd/translate (acqroster) from core/task/manager.go acquireTasks:\n   the newly launched tasks are written to the roster whether or not the deployment succeeded *)\n")
+	fmt.Fprintf(&b, "Definition acq_roster_unconditional : bool := %v.\n", unconditional > 0)
 	return b.String()
 }
